@@ -54,6 +54,12 @@ pub fn apply_term(text: &str, t: Term) -> String {
 /// Blank-line runs at node boundaries: `n` blank lines before every item,
 /// statement and list element of `text` (an L0 program).
 pub fn blank_at_boundaries(text: &str, n: usize, edition: u16, tabs: bool) -> Option<String> {
+    blank_at_boundaries_with(text, n, edition, tabs, "")
+}
+
+/// Like `blank_at_boundaries`; the middle blank line of every run holds `odd` (white space other
+/// than space / tab that the lexer accepts between tokens: vertical tab, form feed, U+2028, ...).
+pub fn blank_at_boundaries_with(text: &str, n: usize, edition: u16, tabs: bool, odd: &str) -> Option<String> {
     let nodes = parse::with_crate(text, edition, |k, ps| positions::collect(k, ps)).ok()?;
     let mut offs: Vec<usize> = nodes.iter().map(|x| x.lo).filter(|&o| o > 0).collect();
     // also before closing braces that follow a node (trailing blank lines inside blocks)
@@ -70,7 +76,10 @@ pub fn blank_at_boundaries(text: &str, n: usize, edition: u16, tabs: bool) -> Op
     let mut pos = 0;
     for (i, o) in offs.iter().enumerate() {
         out.push_str(text[pos..*o].trim_end_matches(' '));
-        for _ in 0..=n {
+        for k in 0..=n {
+            if !odd.is_empty() && k == (n + 1) / 2 && k > 0 {
+                out.push_str(odd);
+            }
             out.push('\n');
         }
         if tabs {
@@ -315,7 +324,7 @@ impl Prop for C08 {
         "C08"
     }
     fn rule(&self) -> String {
-        "corpus A base forms (k<=1 thorough) x contexts x {LALL, blank-line runs of 1/3/4 at every item / statement / list-element boundary, tab/space-mixed indentation} x terminator pattern \
+        "corpus A base forms (k<=1 thorough) x contexts x {LALL, blank-line runs of 1/3/4 at every item / statement / list-element boundary (also with a vertical tab, form feed, U+2028, U+0085 or blanks on the middle line), tab/space-mixed indentation} x terminator pattern \
          {LF, CRLF, LF-then-CRLF, CRLF-then-LF} x leading/trailing blank lines x newline_style {Auto,Unix,Windows,Native} x \
          blank_lines_upper_bound 0..3 x lower 0..upper x hard_tabs x tab_spaces x every width; a case is non-trivial when the \
          input violates the discipline somewhere (wrong terminator, surplus blank lines, tab indentation); distinct = distinct \
@@ -356,6 +365,17 @@ impl Prop for C08 {
                     if let Some(t) = blank_at_boundaries(&u.text, n, u.cfg.edition, false) {
                         let mut v = u.clone();
                         v.key = format!("{}/LBLANK:{n}", u.key.trim_end_matches("/L0"));
+                        v.text = t;
+                        expanded.push(v);
+                    }
+                }
+                for (oname, odd) in [("vt", "\u{b}"), ("ff", "\u{c}"), ("ls", "\u{2028}"), ("nel", "\u{85}"), ("spt", " \t ")] {
+                    if long {
+                        continue;
+                    }
+                    if let Some(t) = blank_at_boundaries_with(&u.text, 4, u.cfg.edition, false, odd) {
+                        let mut v = u.clone();
+                        v.key = format!("{}/LBLANKODD:{oname}", u.key.trim_end_matches("/L0"));
                         v.text = t;
                         expanded.push(v);
                     }
